@@ -53,7 +53,7 @@ Qed.
 (* how a wrapped credential relates to the holder's credential c it was made from, for descriptor d *)
 Definition disclosed_form (v : variant) (d : desc) (i : nat) (c : cred) (w : wcred) : Prop :=
   (w_key w = KTmp (d_id d) i /\ exists k, d_constraints d = Some k /\
-     ((c_sd c = false /\ w_cred w = limited_cred k c) \/ (c_sd c = true /\ k_limit k = true /\ w_cred w = sd_limited k c))) \/
+     ((c_sd c = false /\ w_cred w = limited_cred v k c) \/ (c_sd c = true /\ k_limit k = true /\ w_cred w = sd_limited k c))) \/
   (w_key w = id_key v i c /\ w_cred w = c /\
      (forall k, d_constraints d = Some k -> k_limit k = false)).
 
@@ -269,7 +269,7 @@ Lemma derives_schema : forall v p creds d w,
 Proof.
   intros v p creds d w [c [_ [[S _] D]]] Hne. specialize (S Hne). unfold schema_ok in *.
   destruct D as [[_ [k [_ [[_ E]|[_ [_ E]]]]]]|[_ [E _]]]; rewrite E; try exact S.
-  - rewrite (schema_loop_types (d_schema d) (limited_cred k c) c false); [exact S | reflexivity].
+  - rewrite (schema_loop_types (d_schema d) (limited_cred v k c) c false); [exact S | reflexivity].
   - rewrite (schema_loop_types (d_schema d) (sd_limited k c) c false); [exact S | reflexivity].
 Qed.
 
@@ -424,35 +424,69 @@ Proof.
   - rewrite map_app in H. apply in_app_or in H as [H|[H|[]]]; auto.
 Qed.
 
-Lemma write_paths_keys : forall src pred paths acc x,
-  In x (map fst (write_paths src pred paths acc)) -> In x paths \/ In x (map fst acc).
+Lemma set_elem_keys : forall k n v l x, In x (map fst (set_elem k n v l)) -> x = k \/ In x (map fst l).
 Proof.
-  intros src pred paths. induction paths as [|p t IH]; intros acc x H; simpl in H; [auto|].
-  destruct (lookup p src).
-  - apply IH in H as [H|H]; [left; right; exact H|]. apply set_attr_keys in H as [H|H]; [left; left; auto | auto].
-  - apply IH in H as [H|H]; [left; right; exact H | auto].
+  intros k n v l x H. unfold set_elem in H.
+  destruct (find_attr k l) as [[z|z|z|a]|]; apply set_attr_keys in H; exact H.
 Qed.
 
-Lemma write_fields_keys : forall src fs acc x,
-  In x (map fst (write_fields src fs acc)) -> (exists f, In f fs /\ In x (f_paths f)) \/ In x (map fst acc).
+(* a written key is the base of one of the paths (the path itself for a leaf path) *)
+Lemma write_paths_keys : forall src pred compact paths pm acc x,
+  In x (map fst (snd (write_paths src pred compact paths pm acc))) ->
+  (exists p, In p paths /\ path_base p = x) \/ In x (map fst acc).
 Proof.
-  intros src fs. induction fs as [|f t IH]; intros acc x H; simpl in H; [auto|].
-  apply IH in H as [[g [G1 G2]]|H]; [left; exists g; split; [right; exact G1 | exact G2]|].
-  apply write_paths_keys in H as [H|H]; [left; exists f; split; [left; reflexivity | exact H] | auto].
+  intros src pred compact paths. induction paths as [|p t IH]; intros pm acc x H; simpl in H; [auto|].
+  assert (Step : forall pm' acc', In x (map fst (snd (write_paths src pred compact t pm' acc'))) ->
+                 (In x (map fst acc') -> path_base p = x \/ In x (map fst acc)) ->
+                 (exists q, In q (p :: t) /\ path_base q = x) \/ In x (map fst acc)).
+  { intros pm' acc' H1 H2. apply IH in H1 as [[q [Q1 Q2]]|H1]; [left; exists q; split; [right; exact Q1 | exact Q2]|].
+    destruct (H2 H1) as [E|E]; [left; exists p; split; [left; reflexivity | exact E] | right; exact E]. }
+  destruct (lookup p src) as [v|]; [|eapply Step; [exact H | auto]].
+  destruct (is_idx p) eqn:Ip.
+  - destruct compact.
+    + destruct (pos_of p pm); (eapply Step; [exact H|]); intros Hx; apply set_elem_keys in Hx; (destruct Hx as [Hx|Hx]; [left; symmetry; exact Hx | right; exact Hx]).
+    + eapply Step; [exact H|]. intros Hx. apply set_elem_keys in Hx. destruct Hx as [Hx|Hx]; [left; symmetry; exact Hx | right; exact Hx].
+  - eapply Step; [exact H|]. intros Hx. apply set_attr_keys in Hx as [Hx|Hx]; [|auto].
+    left. unfold path_base. rewrite Ip. auto.
+Qed.
+
+Lemma write_fields_keys : forall v src limit fs pm acc x,
+  In x (map fst (write_fields v src limit fs pm acc)) ->
+  (exists f p, In f fs /\ In p (f_paths f) /\ path_base p = x) \/ In x (map fst acc).
+Proof.
+  intros v src limit fs. induction fs as [|f t IH]; intros pm acc x H; simpl in H; [auto|].
+  destruct (write_paths src (f_pred f) match v with AsIs => true | Fixed => limit end (doc_order (f_paths f))
+              match v with AsIs => [] | Fixed => pm end acc) as [pm' acc'] eqn:E.
+  apply IH in H as [[g [p [G1 [G2 G3]]]]|H]; [left; exists g, p; split; [right; exact G1 | auto]|].
+  assert (H' : In x (map fst (snd (write_paths src (f_pred f) match v with AsIs => true | Fixed => limit end
+                 (doc_order (f_paths f)) match v with AsIs => [] | Fixed => pm end acc)))) by (rewrite E; exact H).
+  apply write_paths_keys in H' as [[p [P1 P2]]|H']; [|auto].
+  left. exists f, p. split; [left; reflexivity|]. split; [|exact P2].
+  unfold doc_order in P1. apply in_app_or in P1 as [P1|P1].
+  - apply filter_In in P1. tauto.
+  - assert (Ins : forall l y, In y (fold_right insert_N [] l) -> In y l).
+    { induction l as [|z l IHl]; intros y Hy; simpl in Hy; [contradiction|].
+      assert (Hi : forall a b w, In w (insert_N a b) -> w = a \/ In w b).
+      { intros a b. induction b as [|c b IHb]; intros w Hw; simpl in Hw; [destruct Hw as [Hw|[]]; auto|].
+        destruct (N.leb a c); [destruct Hw as [Hw|Hw]; auto|].
+        destruct Hw as [Hw|Hw]; [right; left; exact Hw|]. apply IHb in Hw as [Hw|Hw]; auto. right. right. exact Hw. }
+      apply Hi in Hy as [Hy|Hy]; [left; auto | right; apply IHl; exact Hy]. }
+    apply Ins in P1. apply filter_In in P1. tauto.
 Qed.
 
 Lemma limited_lemma : forall v p creds d w k,
   derives v p creds d w -> d_constraints d = Some k -> k_limit k = true ->
   (forall c, nth_error creds (w_src w) = Some c -> c_rawsubj c = false) ->
-  forall a, In a (map fst (c_attrs (w_cred w))) -> exists f, In f (k_fields k) /\ In a (f_paths f).
+  forall a, In a (map fst (c_attrs (w_cred w))) ->
+  exists f q, In f (k_fields k) /\ In q (f_paths f) /\ (q = a \/ path_base q = a).
 Proof.
   intros v p creds d w k [c [N [_ D]]] Hk Hl Raw a Ha. specialize (Raw c N).
   destruct D as [[_ [k' [E1 E2]]]|[_ [_ E]]].
   - assert (k' = k) by congruence. subst k'. destruct E2 as [[_ E2]|[_ [_ E2]]]; rewrite E2 in Ha; simpl in Ha.
-    + rewrite Hl, Raw in Ha. apply write_fields_keys in Ha as [Ha|[]]. exact Ha.
-    + apply in_map_iff in Ha as [[a' b] [Ea Hin]]. simpl in Ea. subst a'. apply filter_In in Hin as [_ Hr].
-      simpl in Hr. unfold requested in Hr. apply existsb_exists in Hr as [f [F1 F2]]. exists f. split; [exact F1|].
-      apply memN_In. exact F2.
+    + rewrite Hl, Raw in Ha. apply write_fields_keys in Ha as [[f [q [F1 [F2 F3]]]]|[]]. exists f, q. auto.
+    + apply in_map_iff in Ha as [[a' b] [Ea Hin]]. simpl in Ea. subst a'. apply filter_In in Hin as [Hin Hr].
+      simpl in Hr. unfold requested in Hr. apply existsb_exists in Hr as [f [F1 F2]]. exists f, a. split; [exact F1|].
+      split; [apply memN_In; exact F2 | left; reflexivity].
   - rewrite (E k Hk) in Hl. discriminate.
 Qed.
 
